@@ -37,13 +37,13 @@ ATT_CONST = dict(ATTESTORS={"a1", "a2", "a3"}, STRANGERS={"x"})
 def sizes(tier):
     if tier == "quick":
         return dict(solo_walks=12, solo_depth=30, solo_mc=dict(MaxSeq=2, MaxTs=3),
-                    att=dict(LMAX=3, PMAX=2, HLEN=2), att_hists=80, att_mc=dict(MaxH=2, LMAX=2),
+                    att=dict(LMAX=2, PMAX=2, HLEN=2), att_hists=60, att_mc=dict(MaxH=2, LMAX=2),
                     lh=dict(BOTHKEYS=False, LOOPK={3}, LOOPD={1}), lh_mc=dict(MaxH=6, MaxSeqL=2),
-                    wasm=dict(DFULL=1, DMUT=2), wasm_mc=dict(NK=2), shards=4)
+                    wasm=dict(DFULL=1, DMUT=2, PREP={"S", "T"}), wasm_mc=dict(NK=2), shards=3)
     return dict(solo_walks=150, solo_depth=40, solo_mc=dict(MaxSeq=3, MaxTs=3),
                 att=dict(LMAX=4, PMAX=3, HLEN=3), att_hists=1458, att_mc=dict(MaxH=3, LMAX=3),
                 lh=dict(BOTHKEYS=True, LOOPK={3, 4}, LOOPD={1, 2}), lh_mc=dict(MaxH=8, MaxSeqL=2),
-                wasm=dict(DFULL=2, DMUT=3), wasm_mc=dict(NK=3), shards=8)
+                wasm=dict(DFULL=2, DMUT=3, PREP={"S", "T", "N", "M"}), wasm_mc=dict(NK=3), shards=8)
 
 
 def hook_present():
